@@ -55,22 +55,23 @@ structure NodeInv (h : NNet) (c : Nat) (m : NNet) (dn : Nat) (hn : String) (pre 
   host : ∀ d, d < h.net.nodes.size → d ≠ c → st.1.net.node d = h.net.node d
   cell : st.1.net.node c = ⟨(m.net.node dn).kind, [], []⟩
   blank : ∀ x, h.net.nodes.size ≤ x → (st.1.net.node x).ins = [] ∧ (st.1.net.node x).outs = []
-  mapDn : st.2.getD dn none = some c
-  mapDom : ∀ j, (st.2.getD j none).isSome ↔ j = dn ∨ (j ∈ pre ∧ (addedOne m hn (some dn) j).isSome)
+  cLt : c < st.1.net.nodes.size
+  mapDn : dn < m.net.nodes.size → st.2.getD dn none = some c
+  mapDom : ∀ j, (st.2.getD j none).isSome ↔ (j = dn ∧ dn < m.net.nodes.size) ∨ (j ∈ pre ∧ (addedOne m hn (some dn) j).isSome)
   mapGe : ∀ j x, st.2.getD j none = some x → x = c ∨ h.net.nodes.size ≤ x
   mapLt : ∀ j x, st.2.getD j none = some x → x < st.1.net.nodes.size
   mapInj : ∀ j1 j2 x, st.2.getD j1 none = some x → st.2.getD j2 none = some x → j1 = j2
   kind : ∀ j x, st.2.getD j none = some x → j ≠ dn → ∃ kn, addedOne m hn (some dn) j = some kn ∧ (st.1.net.node x).kind = kn.1
 
-theorem nodeInv_phase1 (h : NNet) (c : Nat) (m : NNet) (dn : Nat) (hn : String) (w : WF h) (hc : c < h.net.nodes.size)
-    (hdn : dn < m.net.nodes.size) (hk : (m.net.node dn).isFork = (h.net.node c).isFork) :
+theorem nodeInv_phase1 (h : NNet) (c : Nat) (m : NNet) (dn : Nat) (hn : String) (w : WFr h) (hc : c < h.net.nodes.size)
+    (hk : (m.net.node dn).isFork = (h.net.node c).isFork) :
     NodeInv h c m dn hn [] (phase1 h c m (some dn)) := by
   have hmap : ∀ k, ((Array.replicate m.net.nodes.size (none : Option Nat)).setIfInBounds dn (some c)).getD k none =
-      if k = dn then some c else none := by
+      if k = dn ∧ dn < m.net.nodes.size then some c else none := by
     intro k
     rw [mapGetD_set, getD_replicate_none]
     by_cases e : dn = k
-    · subst e; simp [hdn]
+    · subst e; simp
     · have : ¬ k = dn := fun x => e x.symm
       simp [e, this]
   have hnode : ∀ d, (phase1 h c m (some dn)).1.net.node d =
@@ -81,7 +82,8 @@ theorem nodeInv_phase1 (h : NNet) (c : Nat) (m : NNet) (dn : Nat) (hn : String) 
     · subst e; simp [Array.getElem?_eq_getElem hc]
     · have : ¬ d = c := fun x => e x.symm
       simp [e, this]
-  refine ⟨rfl, rfl, w.io, by simp [phase1], by simp [phase1], by simpa [phase1] using w.names, fun _ _ => rfl, ?_, ?_, ?_, ?_, ?_, ?_, ?_, ?_, ?_, ?_⟩
+  refine ⟨rfl, rfl, w.io, by simp [phase1], by simp [phase1], by simpa [phase1] using w.names, fun _ _ => rfl, ?_, ?_, ?_, ?_,
+    by simpa [phase1] using hc, ?_, ?_, ?_, ?_, ?_, ?_⟩
   · -- keys unchanged
     have : (phase1 h c m (some dn)).1.keys = h.keys := by
       simp only [NNet.keys]
@@ -108,12 +110,13 @@ theorem nodeInv_phase1 (h : NNet) (c : Nat) (m : NNet) (dn : Nat) (hn : String) 
       simp only [Net.node, Array.getD_eq_getD_getElem?]
       rw [Array.getElem?_eq_none hx]; rfl
     rw [this]; exact ⟨rfl, rfl⟩
-  · show ((Array.replicate m.net.nodes.size (none : Option Nat)).setIfInBounds dn (some c)).getD dn none = some c
-    rw [hmap]; simp
+  · intro hdn
+    show ((Array.replicate m.net.nodes.size (none : Option Nat)).setIfInBounds dn (some c)).getD dn none = some c
+    rw [hmap]; simp [hdn]
   · intro j
     show (((Array.replicate m.net.nodes.size (none : Option Nat)).setIfInBounds dn (some c)).getD j none).isSome ↔ _
     rw [hmap]
-    by_cases e : j = dn <;> simp [e]
+    by_cases e : j = dn ∧ dn < m.net.nodes.size <;> simp [e]
   · intro j x hx
     have hx' : ((Array.replicate m.net.nodes.size (none : Option Nat)).setIfInBounds dn (some c)).getD j none = some x := hx
     rw [hmap] at hx'
@@ -133,12 +136,12 @@ theorem nodeInv_phase1 (h : NNet) (c : Nat) (m : NNet) (dn : Nat) (hn : String) 
     rw [hmap] at h1' h2'
     split at h1'
     · split at h2'
-      · rename_i e1 e2; rw [e1, e2]
+      · rename_i e1 e2; rw [e1.1, e2.1]
       · exact absurd h2' (by simp)
     · exact absurd h1' (by simp)
   · intro j x hx hne
     have hx' : ((Array.replicate m.net.nodes.size (none : Option Nat)).setIfInBounds dn (some c)).getD j none = some x := hx
-    rw [hmap, if_neg hne] at hx'
+    rw [hmap, if_neg (fun hc' => hne hc'.1)] at hx'
     exact absurd hx' (by simp)
 
 end KV.Transform
@@ -209,7 +212,7 @@ theorem nodeInv_add {h : NNet} {c : Nat} {m : NNet} {dn : Nat} {hn : String} {pr
     · have : ¬ k = j := fun x => e x.symm
       simp [e, this]
   refine ⟨e2.trans iv.lines, e3.trans iv.io, iv.ioLt, by rw [hsz]; have := iv.nsize; omega, by simp [iv.msize],
-    by rw [e4, hsz]; simp [iv.names], ?_, ?_, ?_, ?_, ?_, ?_, ?_, ?_, ?_, ?_, ?_⟩
+    by rw [e4, hsz]; simp [iv.names], ?_, ?_, ?_, ?_, ?_, ?_, ?_, ?_, ?_, ?_, ?_, ?_⟩
   · intro d hd
     rw [e4, names_push_getD]
     have : d < st.1.names.size := by rw [iv.names]; exact Nat.lt_of_lt_of_le hd iv.nsize
@@ -225,9 +228,7 @@ theorem nodeInv_add {h : NNet} {c : Nat} {m : NNet} {dn : Nat} {hn : String} {pr
     rw [e5] at this; exact absurd this (by simp)
   · intro d hd hnc
     rw [hold d (Nat.lt_of_lt_of_le hd iv.nsize)]; exact iv.host d hd hnc
-  · have hc : c < st.1.net.nodes.size := by
-      have := iv.mapLt dn c iv.mapDn; exact this
-    rw [hold c hc]; exact iv.cell
+  · rw [hold c iv.cLt]; exact iv.cell
   · intro x hx
     by_cases h1 : x < st.1.net.nodes.size
     · rw [hold x h1]; exact iv.blank x hx
@@ -235,8 +236,10 @@ theorem nodeInv_add {h : NNet} {c : Nat} {m : NNet} {dn : Nat} {hn : String} {pr
       by_cases h2 : x = st.1.net.nodes.size
       · subst h2; rw [getD_push_eq]; exact ⟨rfl, rfl⟩
       · rw [getD_push_gt _ _ x (by omega)]; exact ⟨rfl, rfl⟩
-  · show (st.2.setIfInBounds j (some st.1.net.nodes.size)).getD dn none = some c
-    rw [hmap, if_neg (fun e => hne e.symm)]; exact iv.mapDn
+  · rw [hsz]; have := iv.cLt; omega
+  · intro hdn
+    show (st.2.setIfInBounds j (some st.1.net.nodes.size)).getD dn none = some c
+    rw [hmap, if_neg (fun e => hne e.symm)]; exact iv.mapDn hdn
   · intro j'
     show ((st.2.setIfInBounds j (some st.1.net.nodes.size)).getD j' none).isSome ↔ _
     rw [hmap]
